@@ -1,8 +1,11 @@
 package main
 
 import (
+	"bytes"
 	"encoding/json"
 	"fmt"
+
+	"github.com/tormoder/fit"
 )
 
 // C16: decode options only add information; unknown-item counts are exact.
@@ -113,6 +116,35 @@ func runC16(c *Ctx) {
 					map[string]interface{}{"with_options": cl, "without": grp[0]})
 			}
 		}
+	}
+	// counters beyond 16 bits: one (known message, unlisted field) pair and one
+	// unknown message, each carried by 65 540 / 70 001 data records of one file.
+	// The Contract counter (FitRef!Step) adds one per record; on a stream the
+	// harness built from a single repeated record that is the record count, so
+	// the expected lists are written down directly (TLC's 32-bit integers hold
+	// them, but validating 135 000 steps per call is left to the sampled calls).
+	{
+		const nf, nm = 65540, 70001
+		s := newStream(14, true)
+		s.FileId(0, 0, 4)
+		s.Def(1, 0, 20, []FieldDef{{253, 4, 0x86}, {3, 1, 2}, {200, 1, 2}}, nil)
+		for r := 0; r < nf; r++ {
+			s.Data(1, append(u32le(0x38000000+uint32(r)), byte(60+r%90), byte(r)))
+		}
+		s.Def(2, 0, 0xFF10, []FieldDef{{1, 1, 2}}, nil)
+		for r := 0; r < nm; r++ {
+			s.Data(2, []byte{byte(r)})
+		}
+		f, err := fit.Decode(bytes.NewReader(s.Bytes()), fit.WithUnknownFields(), fit.WithUnknownMessages())
+		switch {
+		case err != nil:
+			c.report("long-count-file-refused", fmt.Sprintf("Decode refuses a well-formed file of %d + %d records: %v", nf, nm, err), map[string]interface{}{"builder": "c16 long counters"})
+		case len(f.UnknownFields) != 1 || f.UnknownFields[0].MesgNum != 20 || f.UnknownFields[0].FieldNum != 200 || f.UnknownFields[0].Count != nf:
+			c.report("unknown-field-count-long", fmt.Sprintf("UnknownFields = %+v for a file in which %d record messages carry unlisted field 200", f.UnknownFields, nf), map[string]interface{}{"builder": "c16 long counters", "records": nf})
+		case len(f.UnknownMessages) != 1 || f.UnknownMessages[0].MesgNum != 0xFF10 || f.UnknownMessages[0].Count != nm:
+			c.report("unknown-message-count-long", fmt.Sprintf("UnknownMessages = %+v for a file carrying %d data records of unknown message 0xFF10", f.UnknownMessages, nm), map[string]interface{}{"builder": "c16 long counters", "records": nm})
+		}
+		c.Cov["long_counter_file_records"] = nf + nm
 	}
 	c.verdictStats(calls)
 	c.Cov["option_groups"] = len(groups)
